@@ -14,7 +14,7 @@ from cryptography.hazmat.primitives.ciphers import Cipher, algorithms, modes
 
 from engines import gridsim
 from engines.gridsim import R, Grid, run, EPOCH
-from engines.immsim import RecConsumer, apply_knobs, gen_knobs, pat_bytes
+from engines.immsim import RecConsumer, apply_knobs, gen_knobs, pat_bytes, err_name
 from oracles import sharecheck
 from sim.choice import Chooser
 from sim.reactor import EventCap
@@ -37,8 +37,8 @@ def gen_helper(seed, tier, focus="C44"):
     happy = ch.randint("config", "happy", 1, min(nh, n))
     seg = ch.pick("config", "seg", [64, 256, 1024, 4096])
     fetch_chunk = ch.pick("config", "fetch_chunk", [97, 512, 1000, 4096, _DEFAULT_CHUNK])
-    size = ch.weighted("config", "sizeclass", [("small", 3), ("mid", 4), ("big", 1.5)])
-    size = {"small": ch.randint("config", "size", 56, 600), "mid": ch.randint("config", "size", 601, 6000),
+    size = ch.weighted("config", "sizeclass", [("small", 3), ("mid", 4), ("big", 1.5), ("literal", 0.6)])
+    size = {"literal": ch.pick("config", "size-lit", [0, 1, 13, 54, 55, 55]), "small": ch.randint("config", "size", 56, 600), "mid": ch.randint("config", "size", 601, 6000),
             "big": ch.randint("config", "size", 6001, 30000)}[size]
     nchunks = max(1, (size + fetch_chunk - 1) // fetch_chunk)
     ops = []
@@ -127,6 +127,36 @@ def exec_helper(case):
             return finish(g, viol, probes, case, False)
         want_cap = res.get_uri()
         want_vcap = res.get_verifycapstr()
+        if want_cap.startswith(b"URI:LIT:") or cfg["size"] <= 55:
+            # a literal-sized file: "the same caps as a direct upload" means a literal cap, no request to the helper, no shares
+            requests = []
+            g.net.call_filter = lambda caller, callee, methname, args, kwargs, res_: requests.append(methname) if callee == "helper" else None
+            helper_ = Helper(hdir, hnode.storage_broker, hnode._secret_holder, None, None)
+            for c in clients:
+                ref = g.net.ref(c.sim_name, "helper", helper_)
+                ref.version = helper_.remote_get_version()
+                up = c.getServiceNamed("uploader")
+                up._helper_furl = "pb://helper@sim/helper"
+                up._helper = ref
+                ref.notifyOnDisconnect(up._lost_helper)
+            for ci, c in enumerate(clients):
+                try:
+                    st2, res2 = run(c.upload(Data(data, convergence=conv)), 300_000)
+                except EventCap:
+                    bad("livelock", "literal-sized upload through a client with a helper never quiesces")
+                    break
+                probe("literal-sized-upload-" + st2); probe("success-judged")
+                if st2 != "ok":
+                    bad("faultfree-upload-failed", "a %d-byte file uploaded by a client that has a helper: %s (the direct upload returned %r)" % (
+                        cfg["size"], err_name(res2) if st2 == "err" else st2, want_cap), sig="C44.faultfree-upload-failed.literal")
+                elif res2.get_uri() != want_cap:
+                    bad("cap-differs", "a %d-byte file: the client with a helper got %r, the direct upload of the same bytes got %r" % (cfg["size"], res2.get_uri(), want_cap))
+            if requests:
+                bad("literal-went-to-helper", "a %d-byte (literal) file caused %d requests to the helper (%r)" % (cfg["size"], len(requests), requests[:4]))
+            nshares = sum(len(files) for s_ in hservers for _r, _d, files in os.walk(s_.ss.sharedir))
+            if nshares:
+                bad("literal-made-shares", "a %d-byte (literal) file left %d share files on the helper's servers" % (cfg["size"], nshares))
+            return finish(g, viol, probes, case, True)
         capd = sharecheck.parse_chk_cap(want_cap)
         from oracles import refhash
         si = refhash.storage_index_from_key(capd["key"])
